@@ -154,6 +154,12 @@ impl<S: Stream + Unpin> Stream for MergeUnbounded<S> {
                 }
             }
         }
+        // The groups that were discarded above may have been the last ones holding streams (all
+        // their streams ended during this call, after the retained empty group had been visited):
+        // nothing is pending then, and nothing would ever wake the task again.
+        if groups.iter().all(|g| g.streams.is_empty()) {
+            return Poll::Ready(None);
+        }
         Poll::Pending
     }
 }
